@@ -52,7 +52,10 @@ type GzipResult struct {
 
 // ParseGzip parses a sequence of gzip members. With multistream=false only the
 // first member is parsed and whatever follows is ignored.
-func ParseGzip(in []byte, multistream bool) *GzipResult {
+func ParseGzip(in []byte, multistream bool) *GzipResult { return ParseGzipOpt(in, multistream, false) }
+
+// ParseGzipOpt is ParseGzip with a choice of DEFLATE acceptance rules.
+func ParseGzipOpt(in []byte, multistream, permissive bool) *GzipResult {
 	res := &GzipResult{}
 	if len(in) == 0 {
 		res.EmptyInput = true
@@ -133,7 +136,7 @@ func ParseGzip(in []byte, multistream bool) *GzipResult {
 			p += 2
 		}
 		m.BodyStart = p
-		r := Inflate(in[p:], Options{})
+		r := Inflate(in[p:], Options{Permissive: permissive})
 		m.Inflate = r
 		m.Payload = r.Out
 		switch r.Verdict {
@@ -181,7 +184,10 @@ type ZlibResult struct {
 }
 
 // ParseZlib parses one zlib stream (RFC 1950); trailing bytes are ignored.
-func ParseZlib(in []byte, dict []byte) *ZlibResult {
+func ParseZlib(in []byte, dict []byte) *ZlibResult { return ParseZlibOpt(in, dict, false) }
+
+// ParseZlibOpt is ParseZlib with a choice of DEFLATE acceptance rules.
+func ParseZlibOpt(in []byte, dict []byte, permissive bool) *ZlibResult {
 	res := &ZlibResult{}
 	if len(in) < 2 {
 		res.Verdict = CTruncated
@@ -213,7 +219,7 @@ func ParseZlib(in []byte, dict []byte) *ZlibResult {
 		d = dict
 	}
 	res.BodyStart = p
-	r := Inflate(in[p:], Options{Dict: d})
+	r := Inflate(in[p:], Options{Dict: d, Permissive: permissive})
 	res.Inflate = r
 	res.Payload = r.Out
 	switch r.Verdict {
